@@ -20,9 +20,11 @@ fn pid(p: u64) -> Id {
     a[0..8].copy_from_slice(&p.to_le_bytes());
     Id::new(a)
 }
+/// blob ids: many of them share their leading bytes (only three different 8-byte prefixes), the number sits behind
 fn bid(i: u64) -> Id {
     let mut a = [0xb1u8; 32];
-    a[0..8].copy_from_slice(&i.to_le_bytes());
+    a[0..8].copy_from_slice(&(i % 3).to_le_bytes());
+    a[8..16].copy_from_slice(&i.to_le_bytes());
     Id::new(a)
 }
 
@@ -122,7 +124,7 @@ pub fn run_config(cid: &str, ls: &[L], universe: &[u64], out: &mut Out, rng: &mu
                     .map(|p| {
                         json!({"p": pnum(&p.id), "blobs": p.blobs.iter().map(|b| {
                         let v = serde_json::to_value(b).unwrap();
-                        let idn = u64::from_le_bytes(crate::abs::id_bytes(&v["id"].as_str().unwrap().parse().unwrap())[0..8].try_into().unwrap());
+                        let idn = u64::from_le_bytes(crate::abs::id_bytes(&v["id"].as_str().unwrap().parse().unwrap())[8..16].try_into().unwrap());
                         json!({"t": v["type"], "id": idn, "off": v["offset"], "len": v["length"], "ulen": v.get("uncompressed_length").and_then(Value::as_u64).unwrap_or(0)})
                     }).collect::<Vec<_>>()})
                     })
